@@ -554,12 +554,14 @@ class World(object):
         for c, p in self.conns.items():
             p = _P(p)
             app = p._app
-            if app == "absent":
+            app_absent = app == "absent"
+            if app_absent:
                 app = None
             if app is not None and srv._apps.get(app._app_id) is not app:
                 self.anomalies.append("STALE: connection %d holds an unregistered AppNamespace %r" % (c, app._app_id))
             mb = p._mailbox
-            if mb == "absent":
+            mb_absent = mb == "absent"
+            if mb_absent:
                 mb = None
             if mb is not None:
                 reg = srv._apps.get(mb._app_id)
@@ -568,11 +570,11 @@ class World(object):
                 if app is None or mb._app_id != app._app_id:
                     self.anomalies.append("STALE: connection %d mailbox app mismatch" % c)
             conns.append([c,
-                          hx(app._app_id) if app is not None else None,
-                          hx(p._side) if app is not None else None,
+                          "absent" if app_absent else (hx(app._app_id) if app is not None else None),
+                          "absent" if (app_absent or p._side == "absent") else (hx(p._side) if app is not None else None),
                           fl(p._did_allocate), fl(p._listening), fl(p._did_claim),
                           hx(p._nameplate_id), fl(p._did_release),
-                          hx(mb._mailbox_id) if mb is not None else None,
+                          "absent" if mb_absent else (hx(mb._mailbox_id) if mb is not None else None),
                           hx(p._mailbox_id), fl(p._did_close)])
         return subs, conns
 
